@@ -263,6 +263,12 @@ func visitInstr(fr *frame, instr ssa.Instruction) continuation {
 		fr.runDefers()
 
 	case *ssa.Panic:
+		if os.Getenv("ZX_DEBUG") != "" {
+			fmt.Fprintf(os.Stderr, "target panic in %s at %s\n", fr.fn, fr.i.prog.Fset.Position(instr.Pos()))
+			for c := fr.caller; c != nil; c = c.caller {
+				fmt.Fprintf(os.Stderr, "  called from %s\n", c.fn)
+			}
+		}
 		panic(targetPanic{fr.get(instr.X)})
 
 	case *ssa.Send:
@@ -580,6 +586,9 @@ func runFrame(fr *frame) {
 		}
 		if re, ok := r.(runtime.Error); ok && os.Getenv("ZX_DEBUG") != "" {
 			fmt.Fprintf(os.Stderr, "runtime error in %s: %v\n", fr.fn, re)
+		}
+		if str, ok := r.(string); ok && os.Getenv("ZX_DEBUG") != "" {
+			fmt.Fprintf(os.Stderr, "interpreter panic in %s: %v\n", fr.fn, str)
 		}
 		fr.panicking = true
 		fr.panic = r
